@@ -124,7 +124,7 @@ func genC13Op(rt *rapid.T, nm *hx.NodeMachine, cfg genCfg) hx.NOp {
 		if nm.Ptr != m.Tip {
 			return hx.NOp{Op: "sync"}
 		}
-		if nm.FS.Active("C13-timer-tx-sees-pending-task") && nm.PendingTimerFor(m.Blocks[m.Tip].Height+1) {
+		if nm.FS.Active("C13-timer-tx-sees-pending-task") && (nm.PendingTimerFor(m.Blocks[m.Tip].Height+1) || nm.TimerConflictsWithPool(m.Blocks[m.Tip].Height+1)) {
 			nm.Stat["excluded:C13-timer-tx-sees-pending-task"]++
 			// a peer block confirms the pending transactions instead
 			op := genPeerOn(rt, nm, cfg, m.Tip)
